@@ -395,10 +395,12 @@ impl<T: Canon> Canon for EnumD<T> {
 }
 
 #[derive(Epserde, Clone, Debug)]
+#[deep_copy]
 pub enum E1 {
     Only,
 }
 #[derive(Epserde, Clone, Debug)]
+#[deep_copy]
 pub enum E2 {
     A,
     B(u8),
@@ -892,7 +894,3 @@ registry! {
     DropProbeD: DropProbe<Vec<u64>>;
 }
 
-/// Documents whose ε-copy form borrows nothing with an alignment unit above 1.
-pub fn byte_aligned_only(name: &str) -> bool {
-    matches!(name, "U8" | "Bool" | "Unit" | "Str" | "BoxStr" | "VecU8" | "ArrU8x3" | "ArrVecU8" | "RangeFromU8" | "RangeFullD" | "BoundString" | "CfStrVec" | "PaddedStr" | "E1D" | "E2D" | "E9D" | "VecE9" | "OptOptString" | "U64" | "U128" | "F64" | "Char" | "NzU16" | "OptU32" | "RangeU32" | "RangeInclI64" | "RangeToU16" | "RangeToInclU64" | "BoundU64" | "CfU32U64" | "VecString" | "BoxString" | "ArrString" | "EnumDStr")
-}
